@@ -116,6 +116,88 @@ pub fn worker_bin(shard: usize, _nshards: usize, seed: u64, tier: &str, out: &mu
         }
         return;
     }
+    if shard == 8 || shard == 9 {
+        // move strings a GUI would never send (upper case, digits, punctuation, multi-byte
+        // characters in the square positions): parsing indexes the board with what it reads
+        let files: Vec<&str> = vec!["a", "b", "e", "h", "A", "B", "E", "H", "i", "I", "z", "Z", "`", "{", "@", "0", "1", "8", "9", "-", "é"];
+        let ranks: Vec<&str> = vec!["1", "2", "4", "5", "7", "8", "0", "9", "a", "A", "-", "é"];
+        let roots = ["position startpos moves", "position fen 4k3/8/8/2PpP3/8/8/2P1P3/4K3 w - d6 0 1 moves", "position fen r3k2r/1P4P1/8/8/8/8/1p4p1/R3K2R b KQkq - 0 1 moves"];
+        let prefix = roots[shard % 2 + if tier == "thorough" { 1 } else { 0 }];
+        let case = json!({"kind":"hostile-move-strings","prefix":prefix});
+        out.begin(&case);
+        let Ok(mut s) = Session::spawn(&engine_bin(true), &[], &[], None) else {
+            out.inconclusive("cannot start the checked binary");
+            return;
+        };
+        s.keep_log = false;
+        let mut strings: Vec<String> = vec![];
+        for f1 in &files {
+            for r1 in &ranks {
+                for f2 in &files {
+                    for r2 in &ranks {
+                        if (f1.len() + r1.len() + f2.len() + r2.len() > 4 || f1.chars().any(|c| !c.is_ascii_lowercase()) || f2.chars().any(|c| !c.is_ascii_lowercase()) || !r1.chars().all(|c| c.is_ascii_digit()) || !r2.chars().all(|c| c.is_ascii_digit()))
+                            && (strings.len() % 2 == shard % 2)
+                        {
+                            strings.push(format!("{f1}{r1}{f2}{r2}"));
+                        } else if strings.len() % 2 != shard % 2 {
+                            strings.push(String::new());
+                        }
+                    }
+                }
+            }
+        }
+        strings.retain(|x| !x.is_empty());
+        for sfx in ["Q", "k", "qq", "é", "0"] {
+            strings.push(format!("e2e4{sfx}"));
+            strings.push(format!("b7a8{sfx}"));
+        }
+        let mut died = None;
+        for chunk in strings.chunks(2000) {
+            let mut text = String::new();
+            for x in chunk {
+                text.push_str(prefix);
+                text.push(' ');
+                text.push_str(x);
+                text.push_str("\nisready\n");
+            }
+            s.send_bulk(&text);
+            for x in chunk {
+                let mut ok = false;
+                loop {
+                    match s.next(Duration::from_secs(20)) {
+                        Some(ev) if ev.kind == Kind::Out => {
+                            if ev.text == "readyok" {
+                                ok = true;
+                                break;
+                            }
+                        }
+                        Some(ev) if ev.kind == Kind::OutEof => break,
+                        Some(_) => {}
+                        None => break,
+                    }
+                }
+                out.add("hostile_move_strings", 1);
+                if !ok {
+                    died = Some(x.clone());
+                    break;
+                }
+            }
+            if died.is_some() {
+                break;
+            }
+        }
+        if let Some(x) = died {
+            let st = s.wait_exit(Duration::from_secs(3));
+            out.viol("C15", &format!("C15|hostile-move|{x}"),
+                &format!("`{prefix} {x}` on the debug-assertions build: engine died ({st:?}): {}", s.stderr_text().lines().filter(|l| !l.trim().is_empty()).take(4).collect::<Vec<_>>().join(" / ")),
+                json!({"kind":"hostile-move-strings","prefix":prefix,"string":x}));
+        } else {
+            s.send("quit");
+            let _ = s.wait_exit(Duration::from_secs(5));
+        }
+        out.end();
+        return;
+    }
     // UCI capacity runs: the longest accepted game, then deep / unlimited searches
     let n = if tier == "thorough" { 12 } else { 2 };
     for gi in 0..n {
